@@ -22,6 +22,9 @@ func (*BytecodeCompiler).compileLoopExpressionNode
   nosafety
   partial
   requires wfC(c)
+  // operand-stack accounting (verif_contracts_depth.go): ASSUMED of this node compiler
+  ensures ghostdef one: ghost(depth, c) == old(ghost(depth, c)) + 1 || ghost(dead, c) == 1
+  ensures ghostdef sticky: old(ghost(dead, c)) == 1 ==> ghost(dead, c) == 1
   assert before emitLoop#1: c.additionalAbortChecks ==> c.lastOpCode == bytecode.CHECK_ABORT
 
 func (*BytecodeCompiler).compileWhileExpressionNode
@@ -29,6 +32,9 @@ func (*BytecodeCompiler).compileWhileExpressionNode
   nosafety
   partial
   requires wfC(c)
+  // operand-stack accounting (verif_contracts_depth.go): ASSUMED of this node compiler
+  ensures ghostdef one: ghost(depth, c) == old(ghost(depth, c)) + 1 || ghost(dead, c) == 1
+  ensures ghostdef sticky: old(ghost(dead, c)) == 1 ==> ghost(dead, c) == 1
   assert before emitLoop#1: c.additionalAbortChecks ==> c.lastOpCode == bytecode.CHECK_ABORT
 
 func (*BytecodeCompiler).modifierWhileExpression
@@ -50,6 +56,9 @@ func (*BytecodeCompiler).compileUntilExpressionNode
   nosafety
   partial
   requires wfC(c)
+  // operand-stack accounting (verif_contracts_depth.go): ASSUMED of this node compiler
+  ensures ghostdef one: ghost(depth, c) == old(ghost(depth, c)) + 1 || ghost(dead, c) == 1
+  ensures ghostdef sticky: old(ghost(dead, c)) == 1 ==> ghost(dead, c) == 1
   assert before emitLoop#1: c.additionalAbortChecks ==> c.lastOpCode == bytecode.CHECK_ABORT
 
 func (*BytecodeCompiler).compileForIn
@@ -73,5 +82,8 @@ func (*BytecodeCompiler).compileContinueExpressionNode
   nosafety
   partial
   requires wfC(c)
+  // operand-stack accounting (verif_contracts_depth.go): ASSUMED of this node compiler
+  ensures ghostdef one: ghost(depth, c) == old(ghost(depth, c)) + 1 || ghost(dead, c) == 1
+  ensures ghostdef sticky: old(ghost(dead, c)) == 1 ==> ghost(dead, c) == 1
   assert before emitJump#1: c.additionalAbortChecks ==> c.lastOpCode == bytecode.CHECK_ABORT
 @*/
